@@ -377,3 +377,168 @@ func init() {
 		return len(rep.Failures) > 0
 	}
 }
+
+// canonical JSON shapes for the trace specification (no nulls, exactly the fields of the shape)
+func (t TypeD) MarshalJSON() ([]byte, error) {
+	switch t.K {
+	case "prim":
+		return json.Marshal(map[string]any{"k": t.K, "p": t.P})
+	case "ptr", "slice":
+		return json.Marshal(map[string]any{"k": t.K, "e": t.E})
+	case "struct":
+		return json.Marshal(map[string]any{"k": t.K, "f": nn(t.F)})
+	}
+	return json.Marshal(map[string]any{"k": t.K})
+}
+
+func (f FieldD) MarshalJSON() ([]byte, error) {
+	var tag any = map[string]any{"op": "none"}
+	if f.Tag != nil && f.Tag.Op != "none" {
+		tag = f.Tag
+	}
+	return json.Marshal(map[string]any{"tag": tag, "exported": f.Exported, "t": f.T})
+}
+
+// traceGV: the projected target in the shape of Unmarshal.tla's filled values
+func traceGV(g GV) any {
+	switch g.K {
+	case "rec":
+		fs := []any{}
+		for _, x := range g.F {
+			fs = append(fs, traceGV(x))
+		}
+		return map[string]any{"k": "rec", "f": fs}
+	case "list":
+		fs := []any{}
+		for _, x := range g.F {
+			fs = append(fs, traceGV(x))
+		}
+		return map[string]any{"k": "list", "v": fs}
+	case "str", "bool", "num":
+		return map[string]any{"k": g.K, "v": g.V}
+	}
+	return map[string]any{"k": g.K}
+}
+
+var tagPool = []func() *Expr{
+	func() *Expr { return &Expr{Op: "path", Steps: []Step{{Ax: "child", Test: &Test{K: "any"}}}} },
+	func() *Expr { return &Expr{Op: "path", Steps: []Step{{Ax: "attribute", Test: &Test{K: "any"}}}} },
+	func() *Expr { return &Expr{Op: "path", Steps: []Step{{Ax: "child", Test: &Test{K: "text"}}}} },
+	func() *Expr { return &Expr{Op: "path", Steps: []Step{{Ax: "self", Test: &Test{K: "node"}}}} },
+	func() *Expr { return &Expr{Op: "path", Steps: []Step{{Ax: "parent", Test: &Test{K: "node"}}}} },
+	func() *Expr {
+		return call("count", &Expr{Op: "path", Steps: []Step{{Ax: "child", Test: &Test{K: "any"}}}})
+	},
+	func() *Expr {
+		return &Expr{Op: "path", Steps: []Step{{Ax: "following-sibling", Test: &Test{K: "any"}}}}
+	},
+	func() *Expr {
+		return &Expr{Op: "path", Steps: []Step{{Ax: "child", Test: &Test{K: "nsany", Pre: "p"}}}}
+	},
+	func() *Expr {
+		return call("string", &Expr{Op: "path", Steps: []Step{{Ax: "self", Test: &Test{K: "node"}}}})
+	},
+	func() *Expr { return &Expr{Op: "path", Abs: true, Steps: []Step{{Ax: "child", Test: &Test{K: "any"}}}} },
+}
+
+func (g *Gen) randType(depth int) *TypeD {
+	prims := []string{"string", "bool", "int", "int16", "uint8", "float64", "string", "string"}
+	prim := func() *TypeD { return &TypeD{K: "prim", P: prims[g.r.Intn(len(prims))]} }
+	if depth <= 0 {
+		return prim()
+	}
+	switch g.r.Intn(12) {
+	case 0, 1:
+		return prim()
+	case 2:
+		return &TypeD{K: "ptr", E: g.randType(depth - 1)}
+	case 3, 4:
+		return &TypeD{K: "slice", E: []*TypeD{prim(), {K: "ptr", E: prim()}, g.randType(depth - 1)}[g.r.Intn(3)]}
+	case 5:
+		return &TypeD{K: []string{"map", "array", "chan", "iface", "func"}[g.r.Intn(5)]}
+	}
+	t := &TypeD{K: "struct"}
+	for n := 1 + g.r.Intn(3); n > 0; n-- {
+		f := FieldD{Exported: true, T: g.randType(depth - 1)}
+		if g.r.Intn(5) > 0 {
+			f.Tag = tagPool[g.r.Intn(len(tagPool))]()
+		} else {
+			f.Tag = &Expr{Op: "none"}
+			f.T = []*TypeD{{K: "prim", P: "string"}, {K: "prim", P: "int"}}[g.r.Intn(2)]
+		}
+		t.F = append(t.F, f)
+	}
+	return t
+}
+
+// unmarshalTraced performs one xsel.Unmarshal inside a session and logs it
+func (s *Session) unmarshalTraced(g *Gen, ctx int) {
+	env := &Env{Ns: NsMap{"p": uriU1, "q": uriU2}}
+	settings, _ := s.b.settings(env, nil)
+	e := g.NodeSet(1, false)
+	if g.r.Intn(4) == 0 {
+		e = g.Any(1)
+	}
+	text, err := Render(e, Style{Abbrev: true, Space: 1})
+	if err != nil {
+		return
+	}
+	c := compile(text)
+	if c.err != nil {
+		return
+	}
+	if o := execSafe(s.b.ByID[ctx], &c.g, settings); o.err != nil || o.panic != nil || o.res == nil {
+		return
+	}
+	typ := g.randType(2)
+	if g.r.Intn(3) > 0 && typ.K != "struct" && typ.K != "slice" {
+		typ = &TypeD{K: "struct", F: []FieldD{{Exported: true, Tag: tagPool[g.r.Intn(len(tagPool))](), T: typ}}}
+	}
+	form := []string{"ptr", "ptr", "ptr", "ptr", "nonptr", "nilptr", "nil"}[g.r.Intn(7)]
+	s.doUnmarshal(ctx, e, text, typ, form)
+}
+
+func (s *Session) doUnmarshal(ctx int, e *Expr, text string, typ *TypeD, form string) {
+	env := &Env{Ns: NsMap{"p": uriU1, "q": uriU2}}
+	settings, _ := s.b.settings(env, nil)
+	c := compile(text)
+	if c.err != nil {
+		return
+	}
+	o := execSafe(s.b.ByID[ctx], &c.g, settings)
+	if o.err != nil || o.panic != nil || o.res == nil {
+		return
+	}
+	rt, err := goType(typ)
+	if err != nil {
+		return
+	}
+	holder := reflect.New(rt)
+	prefill(holder.Elem(), typ)
+	var target any
+	switch form {
+	case "ptr":
+		target = holder.Interface()
+	case "nonptr":
+		target = holder.Elem().Interface()
+	case "nilptr":
+		target = reflect.Zero(reflect.PointerTo(rt)).Interface()
+	}
+	var uerr error
+	var pan any
+	func() {
+		defer func() { pan = recover() }()
+		uerr = xsel.Unmarshal(o.res, target, settings...)
+	}()
+	var out any
+	switch {
+	case pan != nil:
+		out = map[string]any{"t": "panic", "why": fmt.Sprint(pan)}
+	case uerr != nil:
+		out = map[string]any{"t": "err", "why": firstLine(uerr.Error())}
+	default:
+		out = traceGV(project(holder.Elem(), typ))
+	}
+	s.enc.Encode(map[string]any{"ev": "unmarshal", "h": s.h, "ctx": ctx, "env": traceEnv(env), "e": e, "text": text, "type": typ, "form": form, "out": out,
+		"held": s.heldSnapshot(), "dochash": docDigest(s.b.Root)})
+}
